@@ -246,3 +246,208 @@ Proof.
     rewrite !andb_false_iff, !Z.leb_gt in Hr. lia.
   - destruct (date_to_days_err (r_year p) (r_month p) (r_day p) ltac:(lia) ltac:(lia) K) as (a & b & c & v & E). rewrite E. eexists; reflexivity.
 Qed.
+
+(* ================= write side ================= *)
+From Astro Require Import PadProofs.
+
+Lemma dig_48 x : 0 <= x <= 9 -> dig (48 + x) = true.
+Proof. intros H. unfold dig, is_ascii_digit. destruct (Z.leb_spec 48 (48 + x)); [|lia]. destruct (Z.leb_spec (48 + x) 57); [reflexivity | lia]. Qed.
+Lemma two_48 a b : two (48 + a) (48 + b) = a * 10 + b. Proof. unfold two. lia. Qed.
+
+Lemma span_digits_app a : forall zc zt, all_digits a = true -> dig zc = false -> span_digits (a ++ zc :: zt) = (a, zc :: zt).
+Proof.
+  induction a as [|c a IH]; intros zc zt Ad Hz; cbn [app span_digits].
+  - rewrite Hz. reflexivity.
+  - cbn [all_digits forallb] in Ad. apply andb_true_iff in Ad as [Hc Ad]. unfold dig. rewrite Hc. rewrite (IH zc zt Ad Hz). reflexivity.
+Qed.
+
+(* building a grammatical timestamp from its pieces *)
+Section Build.
+  Variables y1 y2 y3 y4 m1 m2 d1 d2 h1 h2 i1 i2 s1 s2 : Z.
+  Hypothesis Dg : forallb dig [y1; y2; y3; y4; m1; m2; d1; d2; h1; h2; i1; i2; s1; s2] = true.
+  Variables (z : text) (sg oh om zc : Z) (zt : text).
+  Hypothesis Hz : rfc_zone z = Some (sg, oh, om).
+  Hypothesis Ez : z = zc :: zt.
+  Hypothesis Hzc : dig zc = false.
+  Hypothesis Hz46 : zc <> 46.
+  Let head (rest : text) : text :=
+    y1 :: y2 :: y3 :: y4 :: 45 :: m1 :: m2 :: 45 :: d1 :: d2 :: 84 :: h1 :: h2 :: 58 :: i1 :: i2 :: 58 :: s1 :: s2 :: rest.
+  Let parts (frac : text) : rfc_parts :=
+    mkRfc (((y1 - 48) * 10 + (y2 - 48)) * 100 + two y3 y4) (two m1 m2) (two d1 d2) (two h1 h2) (two i1 i2) (two s1 s2) frac sg oh om.
+
+  Lemma rfc_split_nofrac : rfc_split (head z) = Some (parts []).
+  Proof.
+    unfold rfc_split, head. rewrite Dg. cbn [Z.eqb Pos.eqb andb]. rewrite Ez. destruct (Z.eqb_spec zc 46); [contradiction|].
+    rewrite <- Ez, Hz. reflexivity.
+  Qed.
+  Lemma rfc_split_frac frac : all_digits frac = true -> frac <> [] -> rfc_split (head (46 :: frac ++ z)) = Some (parts frac).
+  Proof.
+    intros Ad Hne. unfold rfc_split, head. rewrite Dg. cbn [Z.eqb Pos.eqb andb]. rewrite Ez, (span_digits_app frac zc zt Ad Hzc). cbn [fst snd].
+    destruct frac as [|f0 ft]; [congruence|]. rewrite <- Ez, Hz. reflexivity.
+  Qed.
+End Build.
+
+(* the zone text "Z" / "+hh:mm" / "-hh:mm" written for a whole-minute offset *)
+Lemma zone_out off : off_ok off -> off mod 60 = 0 ->
+  exists sg oh om zc zt, rfc_zone (format_zone 3 off true) = Some (sg, oh, om) /\ format_zone 3 off true = zc :: zt /\
+    dig zc = false /\ zc <> 46 /\ sg * (oh * 3600 + om * 60) = off /\ 0 <= oh <= 23 /\ 0 <= om <= 59.
+Proof.
+  intros Ho Hm. unfold off_ok, SECS_PER_DAY in Ho. unfold format_zone. destruct (Z.eqb_spec off 0) as [->|Hne]; cbn [andb].
+  - exists 1, 0, 0, 90, []. repeat split; try reflexivity; try lia.
+  - cbv zeta. set (a := Z.abs off). assert (Ha : 0 < a < 86400) by (subst a; lia).
+    assert (Hh : 0 <= a / 3600 < 24) by (split; [apply Z.div_pos; lia | apply Z.div_lt_upper_bound; lia]).
+    assert (Hmi : 0 <= a mod 3600 / 60 < 60).
+    { pose proof (Z.mod_pos_bound a 3600 ltac:(lia)). split; [apply Z.div_pos; lia | apply Z.div_lt_upper_bound; lia]. }
+    rewrite (zero_padded_2 (a / 3600)) by lia. rewrite (zero_padded_2 (a mod 3600 / 60)) by lia.
+    set (sgc := if off <? 0 then [45] else [43]).
+    exists (if off <? 0 then -1 else 1), (a / 3600), (a mod 3600 / 60), (if off <? 0 then 45 else 43),
+           [48 + a / 3600 / 10; 48 + (a / 3600) mod 10; 58; 48 + a mod 3600 / 60 / 10; 48 + (a mod 3600 / 60) mod 10].
+    assert (E : sgc ++ [48 + a / 3600 / 10; 48 + (a / 3600) mod 10] ++ [58] ++ [48 + a mod 3600 / 60 / 10; 48 + (a mod 3600 / 60) mod 10]
+              = (if off <? 0 then 45 else 43) :: [48 + a / 3600 / 10; 48 + (a / 3600) mod 10; 58; 48 + a mod 3600 / 60 / 10; 48 + (a mod 3600 / 60) mod 10])
+      by (subst sgc; destruct (off <? 0); reflexivity).
+    rewrite E. split; [|split; [reflexivity|]].
+    + unfold rfc_zone. assert (S1 : (((if off <? 0 then 45 else 43) =? 43) || ((if off <? 0 then 45 else 43) =? 45)) = true) by (destruct (off <? 0); reflexivity).
+      rewrite S1. cbn [Z.eqb Pos.eqb andb forallb].
+      rewrite !dig_48 by lia. cbn [andb]. rewrite !two_48. f_equal. f_equal; [f_equal|]; [destruct (off <? 0); reflexivity | lia | lia].
+    + split; [destruct (off <? 0); reflexivity|]. split; [destruct (off <? 0); discriminate|].
+      split; [|lia]. subst a. destruct (Z.ltb_spec off 0); lia.
+Qed.
+
+(* what format_rfc3339 writes: the tokenized pattern, part by part *)
+Definition HEAD_PARTS : list text := [[121;121;121;121]; [45]; [77;77]; [45]; [100;100]; [84]; [72;72]; [58]; [109;109]; [58]; [115;115]].
+Definition frac_parts (prec : Z) : list text :=
+  match prec with 0 => [] | 2 => [[46]; [110;110]] | 3 => [[46]; [110;110;110]] | 6 => [[46]; [110;110;110;110]] | _ => [[46]; [110;110;110;110;110]] end.
+Definition prec_ok (prec : Z) : Prop := prec = 0 \/ prec = 2 \/ prec = 3 \/ prec = 6 \/ prec = 9.
+Lemma pfs_rfc prec : prec_ok prec -> parse_format_string (rfc_pattern prec) = HEAD_PARTS ++ frac_parts prec ++ [[88;88;88]].
+Proof. intros [-> | [-> | [-> | [-> | ->]]]]; vm_compute; reflexivity. Qed.
+
+Lemma fp_head days nanos off y mo d h mi s : days_to_date days = (y, mo, d) -> nanos_to_time nanos = (h, mi, s) ->
+  map (render_part (fun p => format_part p days nanos off)) HEAD_PARTS =
+  [Ok (zero_padded_i y 4); Ok [45]; Ok (zero_padded mo 2); Ok [45]; Ok (zero_padded d 2); Ok [84];
+   Ok (zero_padded h 2); Ok [58]; Ok (zero_padded mi 2); Ok [58]; Ok (zero_padded s 2)].
+Proof.
+  intros E1 E2. unfold HEAD_PARTS. cbn [map]. unfold render_part, format_part, format_date_part, format_time_part, format_month.
+  cbn [first_char length]. rewrite E1, E2. reflexivity.
+Qed.
+Definition frac_text (prec nanos : Z) : text :=
+  if prec =? 0 then [] else [46] ++ zero_padded (wrap_u32 (nanos mod NANOS_PER_SEC) / 10 ^ (9 - prec)) prec.
+Lemma fp_frac prec days nanos off : prec_ok prec ->
+  concat_res (map (render_part (fun p => format_part p days nanos off)) (frac_parts prec ++ [[88;88;88]])) =
+  Ok (frac_text prec nanos ++ format_zone 3 off true ++ []).
+Proof.
+  intros [-> | [-> | [-> | [-> | ->]]]]; unfold frac_parts, frac_text; cbn [app map]; unfold render_part, format_part, format_time_part;
+  cbn [first_char length]; destruct (nanos_to_time nanos) as [[h m] s]; reflexivity.
+Qed.
+Lemma concat_res_app a b x y : concat_res a = Ok x -> concat_res b = Ok y -> concat_res (a ++ b) = Ok (x ++ y).
+Proof.
+  revert x. induction a as [|r a IH]; intros x Ha Hb; cbn [app concat_res] in *.
+  - injection Ha as <-. exact Hb.
+  - destruct r as [t| |]; cbn [bind] in *; try discriminate. destruct (concat_res a) as [t'| |]; cbn [bind] in *; try discriminate.
+    injection Ha as <-. rewrite (IH t' eq_refl Hb). cbn [bind]. rewrite app_assoc. reflexivity.
+Qed.
+
+Lemma rfc_format_out v prec y mo d h mi s : Valid_dt v -> prec_ok prec ->
+  days_to_date (local_instant v / D) = (y, mo, d) -> nanos_to_time (local_instant v mod D) = (h, mi, s) ->
+  dt_format_rfc3339 v prec =
+  Ok ((zero_padded_i y 4 ++ [45] ++ zero_padded mo 2 ++ [45] ++ zero_padded d 2 ++ [84] ++ zero_padded h 2 ++ [58] ++
+       zero_padded mi 2 ++ [58] ++ zero_padded s 2 ++ []) ++ frac_text prec (local_instant v mod D) ++ format_zone 3 (dt_off v) true ++ []).
+Proof.
+  intros [I L] Hp E1 E2. unfold dt_format_rfc3339, dt_format. cbv zeta.
+  unfold add_offset_to_dn. rewrite (days_nanos_to_nanos_spec (dt_days v) (dt_nanos v)).
+  destruct (split_ok _ L) as [E _]. unfold local_instant, instant in E. rewrite E. cbn [unwrap bind].
+  rewrite (pfs_rfc prec Hp), map_app. apply concat_res_app; [|apply fp_frac; exact Hp].
+  rewrite (fp_head _ _ _ _ _ _ _ _ _ E1 E2). reflexivity.
+Qed.
+
+Lemma frac_nanos_dec k fr : (k <= 9)%nat -> 0 <= fr < 10 ^ Z.of_nat k -> frac_nanos (dec k fr) = fr * 10 ^ (9 - Z.of_nat k).
+Proof.
+  intros Hk Hf. unfold frac_nanos. cbv zeta. rewrite firstn_all2 by (rewrite dec_length; lia). rewrite dec_length, dec_val by exact Hf. reflexivity.
+Qed.
+
+Lemma dg_fields y mo d h mi s : 0 <= y <= 9999 -> 0 <= mo <= 99 -> 0 <= d <= 99 -> 0 <= h <= 99 -> 0 <= mi <= 99 -> 0 <= s <= 99 ->
+  forallb dig [48 + y / 1000; 48 + (y / 100) mod 10; 48 + (y / 10) mod 10; 48 + y mod 10; 48 + mo / 10; 48 + mo mod 10;
+               48 + d / 10; 48 + d mod 10; 48 + h / 10; 48 + h mod 10; 48 + mi / 10; 48 + mi mod 10; 48 + s / 10; 48 + s mod 10] = true.
+Proof. intros. cbn [forallb]. rewrite !dig_48 by lia. reflexivity. Qed.
+Lemma year_digits y : ((48 + y / 1000 - 48) * 10 + (48 + (y / 100) mod 10 - 48)) * 100 + two (48 + (y / 10) mod 10) (48 + y mod 10) = y.
+Proof. unfold two. lia. Qed.
+Lemma two_digits x : two (48 + x / 10) (48 + x mod 10) = x.
+Proof. unfold two. lia. Qed.
+
+(* format_rfc3339 writes a grammatical timestamp whose fields are in range and which denotes the value's offset and
+   its instant truncated to the requested precision (truncation of the local reading = of the instant: whole-minute offsets) *)
+Theorem rfc_format_denotes v prec : Valid_dt v -> prec_ok prec -> dt_off v mod 60 = 0 ->
+  (let '(y, _, _) := days_to_date (local_instant v / D) in 1 <= y <= 9999) ->
+  exists out p, dt_format_rfc3339 v prec = Ok out /\ rfc_split out = Some p /\ rfc_in_range p = true /\
+    snd (rfc_denote p) = dt_off v /\
+    fst (rfc_denote p) = local_instant v / 10 ^ (9 - prec) * 10 ^ (9 - prec) - dt_off v * NANOS_PER_SEC /\
+    Z.of_nat (length (r_frac p)) = prec.
+Proof.
+  intros Hv Hp Hm Hy. pose proof Hv as [I L].
+  destruct (days_to_date_rd (local_instant v / D)) as [V R]. destruct (days_to_date (local_instant v / D)) as [[y mo] d] eqn:E1.
+  destruct V as (_ & Vm & Vd). assert (Hd31 : d <= 31) by (unfold mlen in Vd; repeat match type of Vd with context [if ?b then _ else _] => destruct b end; lia).
+  set (n := local_instant v mod D) in *. assert (Hn : 0 <= n < NANOS_PER_DAY) by (subst n; unfold D; apply Z.mod_pos_bound; unfold NANOS_PER_DAY; lia).
+  pose proof (nanos_to_time_spec n Hn) as E2.
+  set (h := n / NANOS_PER_HOUR) in *. set (mi := (n / NANOS_PER_MINUTE) mod 60) in *. set (s := (n / NANOS_PER_SEC) mod 60) in *.
+  assert (Hh : 0 <= h <= 23) by (subst h; revert Hn; unfold_consts; intros; lia).
+  assert (Hmi : 0 <= mi <= 59) by (subst mi; lia). assert (Hs : 0 <= s <= 59) by (subst s; lia).
+  assert (Hsum : (h * 3600 + mi * 60 + s) * 1000000000 + n mod 1000000000 = n) by (subst h mi s; revert Hn; unfold_consts; intros; lia).
+  clearbody h mi s.
+  rewrite (rfc_format_out v prec y mo d h mi s Hv Hp E1 E2). fold n.
+  unfold zero_padded_i. destruct (Z.ltb_spec y 0); [lia|]. rewrite Z.abs_eq by lia.
+  rewrite (zero_padded_4 y) by lia. rewrite (zero_padded_2 mo), (zero_padded_2 d), (zero_padded_2 h), (zero_padded_2 mi), (zero_padded_2 s) by lia.
+  cbn [app].
+  destruct (zone_out (dt_off v) ltac:(destruct I as (_ & _ & O); exact O) Hm) as (sg & oh & om & zc & zt & Hz & Ez & Hzc & Hz46 & Hoff & Hoh & Hom).
+  pose proof (dg_fields y mo d h mi s ltac:(lia) ltac:(lia) ltac:(lia) ltac:(lia) ltac:(lia) ltac:(lia)) as Dg.
+  pose proof (year_digits y) as EY. pose proof two_digits as E2d.
+  assert (HL : local_instant v = rd (y, mo, d) * 86400000000000 + n) by (rewrite R; subst n; unfold D, NANOS_PER_DAY; pose proof (Z.div_mod (local_instant v) 86400000000000 ltac:(lia)); lia).
+  assert (Hin : forall frac, rfc_in_range (mkRfc y mo d h mi s frac sg oh om) = true).
+  { intros frac. unfold rfc_in_range. cbn [r_year r_month r_day r_hour r_minute r_second r_off_hour r_off_minute].
+    assert (Vb : validb (y, mo, d) = true) by (apply validb_valid; unfold valid; repeat split; lia). rewrite Vb. cbn [andb].
+    rewrite !andb_true_iff, !Z.leb_le. lia. }
+  destruct Hp as [-> | Hp].
+  - (* no fraction *)
+    unfold frac_text. cbn [Z.eqb app]. rewrite app_nil_r. eexists. eexists. split; [reflexivity|].
+    split; [apply (rfc_split_nofrac _ _ _ _ _ _ _ _ _ _ _ _ _ _ Dg _ _ _ _ _ _ Hz Ez Hz46)|].
+    rewrite EY, !E2d. split; [apply Hin|]. unfold rfc_denote. cbn [r_year r_month r_day r_hour r_minute r_second r_frac r_off_sign r_off_hour r_off_minute fst snd length].
+    rewrite Hoff. split; [reflexivity|]. split; [|reflexivity]. change (frac_nanos []) with 0. change (10 ^ (9 - 0)) with 1000000000.
+    rewrite HL. unfold NANOS_PER_SEC. revert Hn Hsum. generalize (rd (y, mo, d)). unfold_consts. intros; lia.
+  - (* k fraction digits *)
+    assert (Hk : exists k, (1 <= k <= 9)%nat /\ prec = Z.of_nat k).
+    { destruct Hp as [-> | [-> | [-> | ->]]]; [exists 2%nat | exists 3%nat | exists 6%nat | exists 9%nat]; split; try reflexivity; lia. }
+    destruct Hk as (k & Hk & Ek). set (u := 10 ^ (9 - prec)) in *. set (r := n mod 1000000000) in *.
+    assert (Hr : 0 <= r < 1000000000) by (subst r; lia).
+    assert (Hu : 0 < u /\ u * 10 ^ prec = 1000000000).
+    { subst u. destruct Hp as [-> | [-> | [-> | ->]]]; split; reflexivity. }
+    assert (Hfr : 0 <= r / u < 10 ^ Z.of_nat k).
+    { rewrite <- Ek. split; [apply Z.div_pos; lia | apply Z.div_lt_upper_bound; lia]. }
+    unfold frac_text. assert (Ep0 : (prec =? 0) = false) by (apply Z.eqb_neq; lia). rewrite Ep0.
+    fold r. unfold NANOS_PER_SEC. fold r. assert (Ew : wrap_u32 r = r) by (unfold wrap_u32; lia). rewrite Ew. fold u.
+    replace (zero_padded (r / u) prec) with (dec k (r / u)) by (rewrite Ek; symmetry; apply zero_padded_dec; [lia | exact Hfr]).
+    cbn [app]. rewrite app_nil_r. eexists. eexists. split; [reflexivity|].
+    split; [apply (rfc_split_frac _ _ _ _ _ _ _ _ _ _ _ _ _ _ Dg _ _ _ _ _ _ Hz Ez Hzc (dec k (r / u)) (dec_digits k _))|].
+    { intros X. apply (f_equal (@length Z)) in X. rewrite dec_length in X. cbn in X. lia. }
+    rewrite EY, !E2d. split; [apply Hin|]. unfold rfc_denote. cbn [r_year r_month r_day r_hour r_minute r_second r_frac r_off_sign r_off_hour r_off_minute fst snd].
+    rewrite Hoff, dec_length. split; [reflexivity|]. split; [|symmetry; exact Ek].
+    rewrite (frac_nanos_dec k (r / u)) by first [exact Hfr | lia]. rewrite <- Ek. fold u.
+    rewrite HL. unfold NANOS_PER_SEC.
+    assert (Hru : r / u * u = r - r mod u) by (pose proof (Z.div_mod r u ltac:(lia)); lia).
+    assert (HLu : (rd (y, mo, d) * 86400000000000 + n) / u * u = rd (y, mo, d) * 86400000000000 + n - r mod u).
+    { assert (Em : (rd (y, mo, d) * 86400000000000 + n) mod u = r mod u).
+      { subst r. destruct Hu as [_ Hu]. rewrite <- Hu.
+        replace (rd (y, mo, d) * 86400000000000 + n) with (n mod (u * 10 ^ prec) + (rd (y, mo, d) * 86400 + n / (u * 10 ^ prec)) * 10 ^ prec * u).
+        - rewrite Z.mod_add by lia. reflexivity.
+        - replace ((rd (y, mo, d) * 86400 + n / (u * 10 ^ prec)) * 10 ^ prec * u) with ((rd (y, mo, d) * 86400 + n / (u * 10 ^ prec)) * (u * 10 ^ prec)) by ring.
+          rewrite Hu. pose proof (Z.div_mod n 1000000000 ltac:(lia)). lia. }
+      pose proof (Z.div_mod (rd (y, mo, d) * 86400000000000 + n) u ltac:(lia)). lia. }
+    rewrite HLu, Hru. revert Hsum. fold r. generalize (rd (y, mo, d)). intros; lia.
+Qed.
+
+(* reading back what was written: same offset, the instant truncated to the written precision *)
+Theorem rfc_roundtrip v prec : Valid_dt v -> prec_ok prec -> dt_off v mod 60 = 0 ->
+  (let '(y, _, _) := days_to_date (local_instant v / D) in 1 <= y <= 9999) ->
+  exists out v', dt_format_rfc3339 v prec = Ok out /\ dt_parse_rfc3339 out = Ok v' /\ dt_off v' = dt_off v /\
+    instant v' = local_instant v / 10 ^ (9 - prec) * 10 ^ (9 - prec) - dt_off v * NANOS_PER_SEC /\ Valid_dt v'.
+Proof.
+  intros Hv Hp Hm Hy. destruct (rfc_format_denotes v prec Hv Hp Hm Hy) as (out & p & Ef & Es & Er & Eo & Ei & _).
+  destruct (rfc_parse_accepts out p Es Er) as (v' & Ep & Ei' & Eo' & Vv'). exists out, v'. rewrite <- Ei, <- Eo. tauto.
+Qed.
